@@ -229,9 +229,103 @@ func buildElected() *fam {
 	return f
 }
 
+
+// buildMulti: ONE target with supermajority links from TWO sources. Chain c1..c7 (E=2): A=c2, B=c4, C=c6. Every
+// validator (n=4) takes one of: no vote for C, A->C, B->C, A->C then later B->C, B->C then later A->C; the votes that
+// justify A (root->A) and B (A->B) come before the votes for C, between the first and the second votes, or after
+// all of them. C may only be justified by a link that has a supermajority itself AND a justified source; B may only be
+// finalized when the link B->C (its direct child) has the supermajority - signatures on the other link do not count.
+func buildMulti(thorough bool) *fam {
+	net := labnet.Setup(2, 2, 4)
+	net.SetLocalKey(labnet.OutsiderKey())
+	w := chainlab.NewWorld(net, net.Gen, nil)
+	w.NVal = 4
+	var c [8]int
+	for i := 1; i <= 7; i++ {
+		c[i] = w.AddBlock(c[i-1], fmt.Sprintf("c%d", i), labnet.BlockOpt{})
+	}
+	f := &fam{W: w, n: -1}
+	evIdx := map[string]int{}
+	add := func(e chainlab.Event) int {
+		e.Name = ""
+		name := e.String()
+		if e.Kind == chainlab.EvBlock {
+			name = "B:" + w.Names[e.Block]
+		}
+		if i, ok := evIdx[name]; ok {
+			return i
+		}
+		e.Name = name
+		w.Events = append(w.Events, e)
+		evIdx[name] = len(w.Events) - 1
+		return len(w.Events) - 1
+	}
+	B := func(b int) int { return add(chainlab.Event{Kind: chainlab.EvBlock, Block: b}) }
+	V := func(v, s, t int) int { return add(chainlab.Event{Kind: chainlab.EvVote, Val: v, Src: s, Tgt: t}) }
+	R := add(chainlab.Event{Kind: chainlab.EvRestart})
+	A, Bc, C := c[2], c[4], c[6]
+	var blocks []int
+	for i := 1; i <= 6; i++ {
+		blocks = append(blocks, B(c[i]))
+	}
+	var justify []int
+	for v := 0; v < 3; v++ {
+		justify = append(justify, V(v, 0, A))
+	}
+	for v := 0; v < 3; v++ {
+		justify = append(justify, V(v, A, Bc))
+	}
+	choiceNames := []string{"-", "A", "B", "AB", "BA"}
+	for m := 0; m < 625; m++ {
+		var first, second []int
+		name := ""
+		for v, x := 0, m; v < 4; v, x = v+1, x/5 {
+			ch := x % 5
+			name += choiceNames[ch] + ","
+			switch ch {
+			case 1:
+				first = append(first, V(v, A, C))
+			case 2:
+				first = append(first, V(v, Bc, C))
+			case 3:
+				first = append(first, V(v, A, C))
+				second = append(second, V(v, Bc, C))
+			case 4:
+				first = append(first, V(v, Bc, C))
+				second = append(second, V(v, A, C))
+			}
+		}
+		for phase, pn := range []string{"sources-first", "sources-between", "sources-last"} {
+			if len(second) == 0 && phase == 1 && !thorough {
+				continue // without second votes "between" equals "last"
+			}
+			h := append([]int{}, blocks...)
+			switch phase {
+			case 0:
+				h = append(append(append(h, justify...), first...), second...)
+			case 1:
+				h = append(append(append(h, first...), justify...), second...)
+			case 2:
+				h = append(append(append(h, first...), second...), justify...)
+			}
+			h = append(h, R, B(c[7]))
+			f.hists = append(f.hists, h)
+			f.names = append(f.names, "two-links-one-target/"+pn+"["+name+"]")
+			f.complete = append(f.complete, false)
+		}
+	}
+	return f
+}
+
 func getFam(n int) *fam {
 	if n == 0 {
 		return buildElected()
+	}
+	if n == -1 {
+		if lastFam == nil || lastFam.n != -1 {
+			lastFam = buildMulti(thorough)
+		}
+		return lastFam
 	}
 	// worlds of different n need different process-wide parameters: rebuild on every switch
 	if lastFam == nil || lastFam.n != n {
@@ -288,10 +382,12 @@ func main() {
 	if !run.Thorough() {
 		sizes = []int{1, 2, 3, 4, 5, 6, 7, 8, 9, 10} // every size: the rounding of 2n/3 differs per residue
 	}
-	for _, n := range append([]int{0}, sizes...) {
+	for _, n := range append([]int{0, -1}, sizes...) {
 		var f *fam
 		if n == 0 {
 			f = buildElected()
+		} else if n == -1 {
+			f = buildMulti(run.Thorough())
 		} else {
 			f = build(n, run.Thorough())
 		}
@@ -308,7 +404,7 @@ func main() {
 	run.Set("histories", len(items))
 	run.Set("validator_set_sizes", sizes)
 	run.Set("rule", "per validator-set size n: every subset of signers (n<=5; thorough: every n, plus each subset split between header and P2P votes around a restart) or every subset size from both ends of the slot range (n>5, quick), delivered as P2P votes and as header-carried links, plus forged / non-validator / all-slot-forged signatures, unjustified sources, direct and skip links, cached votes, each with a restart and a follow-up event; after EVERY event the node's justified set and finalized root are compared with the reference closure")
-	run.Assume("federation validator sets of size n, plus one world (n=0 in the samples) in which a vote transaction elects a new single-key validator set that takes over in the next epoch; E=2")
+	run.Assume("n=-1 in the samples: one target with links from two sources (4 validators, each: no vote / A->C / B->C / both in either order; the votes justifying the sources before, between or after); federation validator sets of size n, plus one world (n=0 in the samples) in which a vote transaction elects a new single-key validator set that takes over in the next epoch; E=2")
 	run.Finish()
 }
 
